@@ -95,6 +95,11 @@ def run(ctx):
         ctx.tlc('Gen_Grammar', gen3, capture='cases_expr.ndjson', timeout=2400, heap='10g')
         genp = ctx.cfg('Gen_GrammarProg', constants={'MaxS': 3, 'Shifts': '{0, 3, 7, 11, 13, 17, 22, 26, 31, 35}', 'Pairs': 'TRUE', 'ReLen': 3})
         ctx.tlc('Gen_GrammarProg', genp, capture='cases_prog.ndjson', timeout=2400, heap='8g')
+    # sign adjacency: every tree of <= 3 (thorough: 4) operators over the productions whose spellings can fuse into other tokens
+    # when printed next to each other (unary + - !, pre/post ++ --, binary + - and ^, $): - --x ^ 2, x - -y, a++ + ++b ...
+    gsign = ctx.cfg('Gen_Grammar', name='Gen_Grammar_sign', constants={
+        'MaxOps': 3 if q else 4, 'MaxOdd': 0, 'Prods': c04mod.tla_set(c04mod.SIGN_PRODS), 'Ctxs': '{"stmt", "print"}', 'OddCtxs': '{"stmt"}'})
+    ctx.tlc('Gen_Grammar', gsign, capture='cases_expr.ndjson', timeout=1500, heap='8g')
     ctx.cov['exhaustive'] = True
     check_printer_unambiguous(ctx, ['cases_expr.ndjson', 'cases_prog.ndjson'])
     s1 = ctx.replay('cases_expr.ndjson', label='gen-expr', min_cases=5000, corrupt=corrupt)
